@@ -16,6 +16,14 @@ Correspondence (model executed by the Lean driver, `C18 <op>`):
   fit_quantile.trace    traced fit_quantile (expectile of every re-fit, ratio of every model) vs the model bisection
                         driven by the observed ratios: doubles bit for bit (`bisectf`), exact rationals (`bisect`);
                         oracle: post-condition, direction of every step, strictly inside (0,1), <= max_iter re-fits
+                        + the model RETURNED by fit_quantile(..., weights=w) (theorem fitQuantileW_returns_weighted_expectile_fit):
+                        balances the w-weighted residuals at the expectile it reports (oracle, 1e-7 rel.), equals an
+                        independent ExpectileGAM(expectile=returned).fit(X, y, weights=w) and, for integer weights, the
+                        unweighted fit of the row-replicated data; every traced fit received the weights that were passed
+  fit_quantile.intercept  fit_quantile(X, y, q, weights=w) of the intercept-only model vs the model search with the fit made
+                        explicit (`fitQuantileW` on `interceptModelFit w`, exact rationals, ridge 2^-26): expectile and
+                        coefficient of every re-fit, number of re-fits, returned coefficient; oracle: weighted balance of
+                        the returned coefficient
   malformed             argument rejection of fit_quantile and the expectile range check vs the model (exception class)
 
 Everything goes through pyGAM's public API (ExpectileGAM / LinearGAM methods and attributes; the trace is taken by a
@@ -117,7 +125,22 @@ def build_terms(pygam, mix, lam, ns, mult=1.0):
     raise KeyError(mix)
 
 
-def gen_weights(kind, n, rs):
+# weight kinds of the fit_quantile streams: the shared ones + integers that are strongly non-uniform, tied to the response
+# and contain zeros (a fit that loses them is a visibly different fit)
+FQ_WEIGHT_KINDS = ['skewint', 'int', 'zeros', 'dyadic', 'f32', 'skewint', 'ones', 'none']
+
+
+def gen_weights(kind, n, rs, y=None):
+    if kind == 'skewint':
+        hi = float(rs.randint(6, 21))
+        above = np.asarray(y, dtype=float) > np.median(y) if y is not None else rs.rand(n) < 0.5
+        if rs.rand() < 0.5:
+            above = ~above
+        v = np.where(above, hi, 1.0)
+        v[rs.rand(n) < 0.15] = 0.0
+        if not v.any():
+            v[0] = 1.0
+        return v
     if kind == 'none':
         return None
     if kind == 'ones':
@@ -173,7 +196,7 @@ def make_case(seed, stream, idx, tier, force=None, taus=None):
     ns = force.get('ns', [5, 6, 8, 10][r.randrange(4)])
     yk = force.get('yk', YKINDS[r.randrange(len(YKINDS))])
     X, y = gen_data(rs, n, yk)
-    w = gen_weights(wk, n, rs)
+    w = gen_weights(wk, n, rs, y)
     return dict(stream=stream, idx=idx, mix=mix, tau=tau, wk=wk, n=n, lam=lam, ns=ns, yk=yk, X=X, y=y, w=w, rs=rs, r=r)
 
 
@@ -459,15 +482,50 @@ def run_half_linear(ctx, pygam, idxs=None):
 
 def make_traced(pygam):
     class Traced(pygam.ExpectileGAM):
-        """records (expectile, ratio on the data of the call) after every public fit"""
+        """records (expectile, ratio on the data of the call, the `weights` keyword the call received, coefficients) after
+        every public fit"""
         _trace = None
 
         def fit(self, X, y, weights=None):
             r = super(Traced, self).fit(X, y, weights=weights)
             if Traced._trace is not None:
-                Traced._trace.append((float(self.expectile), float((np.asarray(self.predict(X)) > np.asarray(y, dtype=float)).mean())))
+                try:
+                    seen = None if weights is None else np.array(weights, dtype=float).ravel().copy()
+                except Exception:  # noqa
+                    seen = 'unreadable'
+                try:
+                    coef = np.array(self.coef_, dtype=float).ravel().copy()
+                except Exception:  # noqa
+                    coef = None
+                Traced._trace.append((float(self.expectile), float((np.asarray(self.predict(X)) > np.asarray(y, dtype=float)).mean()),
+                                      seen, coef))
             return r
     return Traced
+
+
+def same_weights(seen, w, n):
+    """did a fit receive the weights that were passed to fit_quantile (None and all-ones are the same fit)"""
+    if isinstance(seen, str):
+        return False
+    a, b = eff(seen, n), eff(w, n)
+    return a.shape == b.shape and bool(np.array_equal(a, b))
+
+
+def replicable(X, w):
+    """integer weights whose zero rows can be dropped without changing what the terms are built from (column ranges, factor
+    levels): then `weights=w` must be the same fit as the unweighted fit of the data with row i repeated w_i times"""
+    if w is None:
+        return None
+    k = np.asarray(w, dtype=float)
+    if not np.all(k == np.round(k)) or np.any(k < 0) or k.sum() > 2500 or not k.any():
+        return None
+    keep = k > 0
+    for j in range(X.shape[1]):
+        if X[keep, j].min() != X[:, j].min() or X[keep, j].max() != X[:, j].max():
+            return None
+    if not np.array_equal(np.unique(X[keep, 2]), np.unique(X[:, 2])):
+        return None
+    return k.astype(int)
 
 
 QUANTILES = [0.5, 0.9, 0.1, 0.25, 0.75, 0.95, 0.05, 0.99, 0.01]
@@ -540,10 +598,83 @@ def eval_fq(pygam, Traced, c, q, tol, mi, e0, prefit):
         first_ok = True
     ratios += [t[1] for t in refits]
     final_ratio = None
+    fin = None
     if exc is None:
         final_ratio = float((np.asarray(g.predict(X)) > y).mean())
+        fin = final_model(pygam, g, c)
     return dict(exc=exc, ret_is_self=(ret is g), expectiles=[t[0] for t in refits], ratios=ratios, final_e=float(g.expectile),
-                final_ratio=final_ratio, first_ok=first_ok, n_refits=len(refits))
+                final_ratio=final_ratio, first_ok=first_ok, n_refits=len(refits), prefit=prefit, fin=fin,
+                kw_ok=[same_weights(t[2], w, len(y)) for t in tr])
+
+
+def final_model(pygam, g, c):
+    """what is needed to judge the model fit_quantile returned: its predictions, intercept, convergence; the predictions of an
+    independent fit at the returned expectile with the same weights; and of the unweighted fit of the row-replicated data"""
+    X, y, w = c['X'], c['y'], c['w']
+    out = dict(conv=False, mu=None, b0=None, ref=None, rep=None, e=None)
+    try:
+        e = float(g.expectile)
+        out.update(e=e, mu=np.asarray(g.predict(X), dtype=float), b0=intercept_coef(g), conv=converged(g, 1e-8))
+        if out['mu'].shape != y.shape or not np.all(np.isfinite(out['mu'])) or out['b0'] is None or not (0 < e < 1):
+            out['conv'] = False
+    except Exception as ex:  # noqa
+        out['err'] = type(ex).__name__
+        return out
+    if not out['conv']:
+        return out
+
+    def fresh():
+        return pygam.ExpectileGAM(build_terms(pygam, c['mix'], c['lam'], c['ns']), expectile=e, tol=1e-8, max_iter=200)
+    try:
+        h = fresh().fit(X, y, weights=w)
+        if converged(h, 1e-8):
+            out['ref'] = np.asarray(h.predict(X), dtype=float)
+    except Exception as ex:  # noqa
+        out['ref_err'] = type(ex).__name__
+    k = replicable(X, w)
+    if k is not None and c['idx'] % 2 == 0:
+        try:
+            h = fresh().fit(np.repeat(X, k, axis=0), np.repeat(y, k))
+            if converged(h, 1e-8):
+                out['rep'] = np.asarray(h.predict(X), dtype=float)
+        except Exception as ex:  # noqa
+            out['rep_err'] = type(ex).__name__
+    return out
+
+
+def judge_final(o, c):
+    """the returned model against the property, with the weights that were passed to fit_quantile (NumPy only).  Returns
+    (failure, notes): failure = the weighted balance is broken (a failing input); notes = differences to the independent
+    fits without a broken balance"""
+    fin = o.get('fin')
+    if o['exc'] is not None or fin is None or not fin['conv']:
+        return None, [], 'not converged / no model'
+    if o['n_refits'] == 0 and o['prefit'] == 'other':
+        return None, [], 'returned the model fitted before the call (other data)'
+    y, n = c['y'], c['n']
+    w32 = eff(c['w'], n).astype('f').astype(float)
+    mu, b0, e = fin['mu'], fin['b0'], fin['e']
+    r = y - mu
+    pos, neg = float(e * np.sum((w32 * r)[r > 0])), float((1 - e) * np.sum((w32 * -r)[r <= 0]))
+    scale = float(np.sum(w32 * np.abs(r))) + 1.0
+    d = abs(pos - neg - SQRT_EPS * b0)
+    margin = 10
+    fail = None
+    if d > margin * 1e-7 * scale or d > margin * 1e-5 * max(pos, neg) + 1e-9 * scale:
+        fail = dict(reason='the returned model does not balance the weighted residuals at its expectile', expectile=e, tau_pos=pos,
+                    one_minus_tau_neg=neg, sqrt_eps_beta0=SQRT_EPS * b0, scale=scale, n_refits=o['n_refits'])
+    notes = []
+    ys = max(1.0, float(np.max(y) - np.min(y)))
+    for key, what in (('ref', 'independent ExpectileGAM(expectile=returned).fit(X, y, weights=w)'),
+                      ('rep', 'unweighted fit of the data with row i repeated w_i times')):
+        if fin.get(key) is not None and fin[key].shape == mu.shape:
+            dd = float(np.max(np.abs(fin[key] - mu))) / ys
+            tol = 1e-6 if key == 'ref' else 1e-5
+            if dd > tol:
+                notes.append(dict(vs=what, max_rel_diff=dd))
+    if fail is not None:
+        fail['differences'] = notes
+    return fail, notes, 'judged'
 
 
 def oracle_fq(o, q, tol, mi, e0):
@@ -585,7 +716,10 @@ def run_fit_quantile(ctx, pygam, lits, idxs=None):
     idxs = range(ncase) if idxs is None else idxs
     evals, ops = [], []
     for i in idxs:
-        c = make_case(ctx.seed, st, i, ctx.tier, force=dict(n=[12, 25, 40, 80, 150][i % 5] if i % 11 != 8 else [8, 16, 32][i % 3], ns=6))
+        force = dict(n=[12, 25, 40, 80, 150][i % 5] if i % 11 != 8 else [8, 16, 32][i % 3], ns=6)
+        if i % 4 == 1:
+            force['wk'] = 'skewint'          # strongly non-uniform integer weights with zeros, tied to the response
+        c = make_case(ctx.seed, st, i, ctx.tier, force=force)
         q, tol, mi, e0, prefit = fq_config(ctx, i, lits)
         sig = case_sig(c, q=q, tol=tol, max_iter=mi, e0=e0, prefit=prefit)
         sig.pop('tau')
@@ -594,22 +728,44 @@ def run_fit_quantile(ctx, pygam, lits, idxs=None):
         ctx.count('max_iter', mi)
         ctx.count('start expectile', e0)
         ctx.count('prefit', prefit)
+        ctx.count('fit_quantile weight kind', c['wk'])
         o = eval_fq(pygam, Traced, c, q, tol, mi, e0, prefit)
         bad = oracle_fq(o, q, tol, mi, e0)
+        if bad is None:
+            bad, notes, how = judge_final(o, c)
+        else:
+            notes, how = [], 'search already failing'
         ctx.case(st, sig, nontrivial=(o['n_refits'] > 0), sample=dict(q=q, tol=tol, max_iter=mi, e0=e0, prefit=prefit, expectiles=o['expectiles'][:6],
                                                                       ratios=o['ratios'][:6]))
         ctx.count('re-fits', o['n_refits'])
+        ctx.count('returned model', how)
+        uniform = c['w'] is None or bool(np.all(np.asarray(c['w']) == np.asarray(c['w'])[0]))
+        if o['n_refits'] > 0:
+            ctx.count('searches with >= 1 re-fit, weights', 'uniform' if uniform else 'non-uniform')
+        if o['exc'] is None and o['fin'] is not None:
+            ctx.count('returned model vs independent weighted fit', 'compared' if o['fin'].get('ref') is not None else 'not compared')
+            ctx.count('returned model vs row-replicated fit', 'compared' if o['fin'].get('rep') is not None else 'not compared')
         if o['exc'] is None and o['final_ratio'] is not None:
             ctx.count('ended', 'within tol' if abs(o['final_ratio'] - q) <= tol else 'max_iter')
         if bad is not None:
             o2 = eval_fq(pygam, Traced, c, q, tol, mi, e0, prefit)
             bad2 = oracle_fq(o2, q, tol, mi, e0)
+            if bad2 is None:
+                bad2 = judge_final(o2, c)[0]
             if bad2 is not None:
                 ctx.fail(st, sig, case_replay(ctx.seed, c, q=q, tol=tol, max_iter=mi, e0=e0, prefit=prefit),
-                         observed=dict(bad2, expectiles=o2['expectiles'], ratios=o2['ratios'], final_ratio=o2['final_ratio']),
-                         expected='|ratio - quantile| <= tol or max_iter steps; every step towards the target; expectiles in (0,1)',
-                         oracle='NumPy on the trace of public fit calls and (predict(X) > y).mean()')
+                         observed=dict(bad2, expectiles=o2['expectiles'], ratios=o2['ratios'], final_ratio=o2['final_ratio'],
+                                       fits_that_received_the_weights=o2['kw_ok']),
+                         expected='|ratio - quantile| <= tol or max_iter steps; every step towards the target; expectiles in (0,1); the returned '
+                                  'model is the weighted expectile fit at its expectile: tau * sum_{r>0} w r == (1 - tau) * sum_{r<=0} w |r| '
+                                  '(+ 2^-26 * intercept) with the weights passed to fit_quantile',
+                         oracle='NumPy on the trace of public fit calls, (predict(X) > y).mean() and y - predict(X) of the returned model')
                 continue
+        if o['exc'] is None and not all(o['kw_ok']):
+            ctx.disagree(st, sig, dict(fits_that_received_the_weights=o['kw_ok']), 'every fit of the search is fit(X, y, weights=w)',
+                         'a fit of the search did not receive the keywords passed to fit_quantile (model: searchLoop re-fits with `fit kw`)')
+        for nt in notes:
+            ctx.disagree(st, sig, nt, 'returned model == fit kw expectile (fitQuantileW_post)', 'returned model differs from the ' + nt['vs'])
         if o['exc'] is not None:
             continue
         rs = o['ratios']
@@ -655,6 +811,179 @@ def run_fit_quantile(ctx, pygam, lits, idxs=None):
                 ctx.disagree(st, sig, impl, dict(expectiles=[str(x) for x in mtr], n=int(nit), conv=conv), 'rational model trace differs')
             if dyadic_start:
                 ctx.count('rational model exact', 1)
+
+
+FQI_Q = [0.5, 0.75, 0.25, 0.9, 0.1, 0.625, 0.4, 0.8]
+FQI_TOL = [0.01, 0.05, 0.2, 0.001]
+FQI_MAXITER = [1, 2, 3, 5, 8, 12]
+FQI_START = [0.5, 0.25, 0.75, 0.0625, 0.875]            # dyadic: the midpoints are exact in doubles and in the rational model
+
+
+def fqi_case(ctx, i):
+    st = 'fit_quantile.intercept'
+    r = ctx.subrng(st, i)
+    rs = np.random.RandomState(r.getrandbits(32))
+    n = [2, 3, 5, 8, 13, 30][r.randrange(6)]
+    yk = (i // 2) % 3
+    if yk == 0:
+        y = rs.randint(-5, 6, n).astype(float)
+    elif yk == 1:
+        y = np.round(rs.randn(n) * 3, 3)
+    else:
+        y = rs.exponential(2.0, n)
+    wk = FQ_WEIGHT_KINDS[i % len(FQ_WEIGHT_KINDS)]
+    w = gen_weights(wk, n, rs, y)
+    q = FQI_Q[r.randrange(len(FQI_Q))]
+    tol = FQI_TOL[r.randrange(len(FQI_TOL))]
+    mi = FQI_MAXITER[r.randrange(len(FQI_MAXITER))]
+    e0 = FQI_START[r.randrange(len(FQI_START))]
+    prefit = ['no', 'no', 'same', 'other'][r.randrange(4)]
+    y2 = y[::-1] * 0.5 + 1.0 if prefit == 'other' else None
+    return dict(i=i, n=n, y=y, w=w, wk=wk, q=q, tol=tol, mi=mi, e0=e0, prefit=prefit, y2=y2)
+
+
+def eval_fqi(pygam, Traced, c):
+    """fit_quantile of the intercept-only model under trace"""
+    from pygam.terms import intercept
+    n, y, w = c['n'], c['y'], c['w']
+    X = np.zeros((n, 1))
+    g = Traced(intercept, expectile=c['e0'], tol=1e-13, max_iter=300)
+    Traced._trace = None
+    out = dict(exc=None, pre=None, fits=[], coef=None, e=None, conv=False, kw_ok=[])
+    try:
+        if c['prefit'] == 'same':
+            g.fit(X, y, weights=w)
+        elif c['prefit'] == 'other':
+            g.fit(X, c['y2'])
+        if c['prefit'] != 'no':
+            out['pre'] = float(np.asarray(g.coef_).ravel()[0])
+        Traced._trace = []
+        try:
+            g.fit_quantile(X, y, quantile=c['q'], max_iter=c['mi'], tol=c['tol'], weights=w)
+        finally:
+            tr = list(Traced._trace)
+            Traced._trace = None
+        out['fits'] = [(t[0], None if t[3] is None or len(t[3]) != 1 else float(t[3][0])) for t in tr]
+        out['kw_ok'] = [same_weights(t[2], w, n) for t in tr]
+        out['coef'] = float(np.asarray(g.coef_).ravel()[0])
+        out['e'] = float(g.expectile)
+        out['conv'] = converged(g, 1e-13)
+    except Exception as ex:  # noqa
+        Traced._trace = None
+        out['exc'] = ex
+    return out
+
+
+def fqi_balance_broken(c, o, margin=10):
+    """the returned coefficient against the property with the weights that were passed (NumPy only)"""
+    if o['exc'] is not None or o['coef'] is None or not o['conv'] or not np.isfinite(o['coef']) or not (0 < o['e'] < 1):
+        return None
+    refits = len(o['fits']) - (1 if c['prefit'] == 'no' else 0)
+    if refits == 0 and c['prefit'] == 'other':
+        return None
+    wv = w_eff(c['w'], c['n'])
+    r = c['y'] - o['coef']
+    pos, neg = float(o['e'] * np.sum((wv * r)[r > 0])), float((1 - o['e']) * np.sum((wv * -r)[r <= 0]))
+    sc = float(np.sum(wv * np.abs(r))) + 1.0
+    d = abs(pos - neg - SQRT_EPS * o['coef'])
+    if d > margin * 1e-7 * sc:
+        return dict(reason='the returned intercept is not the weighted expectile of y at the reported expectile', expectile=o['e'], coef=o['coef'],
+                    tau_pos=pos, one_minus_tau_neg=neg, ridge=SQRT_EPS * o['coef'], scale=sc)
+    return None
+
+
+def run_fq_intercept(ctx, pygam, idxs=None):
+    st = 'fit_quantile.intercept'
+    ctx.stream(st, 'ExpectileGAM(intercept).fit_quantile(X, y, q, max_iter, tol, weights=w) vs the model search with the fit made explicit '
+                   '(fitQuantileW on interceptModelFit with the forwarded weights, exact rationals, ridge 2^-26): expectile (exact) and '
+                   'coefficient (1e-8) of every re-fit, number of re-fits, returned coefficient; oracle: weighted balance of the returned '
+                   'coefficient at the returned expectile')
+    Traced = make_traced(pygam)
+    ncase = 96 if ctx.tier == 'quick' else 640
+    idxs = range(ncase) if idxs is None else idxs
+    cases, ops = [], []
+    for i in idxs:
+        c = fqi_case(ctx, i)
+        o = eval_fqi(pygam, Traced, c)
+        wv = w_eff(c['w'], c['n'])
+        cold = float(np.sum(wv * c['y']) / max(np.sum(wv), 1e-9))
+        pre = '-'
+        if c['prefit'] == 'other':
+            # the model fitted before the call on other data: its coefficient is an input of the search, not something it fits
+            pre = q2s(f2q(o['pre'])) if (o['pre'] is not None and np.isfinite(o['pre'])) else '-'
+        ops.append('C18 searchi %s %s %d %s %s %d 200 %s | %s | %s | %s' % (
+            q2s(f2q(c['q'])), q2s(f2q(c['tol'])), c['mi'], q2s(f2q(c['e0'])), q2s(Fraction(1, 2 ** 26)), c['n'], pre,
+            _vec_q(wv), _vec_q(c['y']), q2s(f2q(cold))))
+        cases.append((c, o))
+    outs = ctx.driver.run(ops)
+    for (c, o), line in zip(cases, outs):
+        sig = dict(i=c['i'], n=c['n'], wk=c['wk'], q=c['q'], tol=c['tol'], max_iter=c['mi'], e0=c['e0'], prefit=c['prefit'])
+        first = 1 if c['prefit'] == 'no' else 0
+        refits = o['fits'][first:]
+        uniform = c['w'] is None or bool(np.all(c['w'] == c['w'][0]))
+        ctx.case(st, sig, nontrivial=(len(refits) > 0 and not uniform))
+        ctx.count('intercept search weight kind', c['wk'])
+        ctx.count('intercept search re-fits', len(refits))
+        rp = dict(seed=ctx.seed, stream=st, idx=c['i'], y=c['y'].tolist(), w=None if c['w'] is None else c['w'].tolist(), q=c['q'], tol=c['tol'],
+                  max_iter=c['mi'], e0=c['e0'], prefit=c['prefit'])
+
+        def confirm():
+            o2 = eval_fqi(pygam, Traced, c)
+            if o2['exc'] is not None:
+                return dict(reason='exception', exc=type(o2['exc']).__name__, msg=str(o2['exc'])[:200])
+            return fqi_balance_broken(c, o2)
+        if o['exc'] is not None:
+            b2 = confirm()
+            if b2 is not None and b2.get('reason') == 'exception':
+                ctx.fail(st, sig, rp, observed=b2, expected='fit_quantile returns', oracle='valid arguments: no exception')
+            continue
+        broken = fqi_balance_broken(c, o)
+        if broken is not None:
+            b2 = confirm()
+            if b2 is not None:
+                ctx.fail(st, sig, rp, observed=dict(b2, fits=o['fits'], fits_that_received_the_weights=o['kw_ok']),
+                         expected='tau * sum_{y>b} w (y-b) == (1-tau) * sum_{y<=b} w (b-y) + 2^-26 b at the returned expectile, with the weights '
+                                  'passed to fit_quantile',
+                         oracle='NumPy on y - coef_ of the returned model')
+                continue
+        if not all(o['kw_ok']):
+            ctx.disagree(st, sig, dict(fits_that_received_the_weights=o['kw_ok']), 'every fit of the search is fit(X, y, weights=w)',
+                         'a fit of the search did not receive the keywords passed to fit_quantile')
+        if line == 'bad-op' or line == 'ValueError' or line.count('|') != 2:
+            ctx.disagree(st, sig, 'returned', line, 'model rejected / malformed')
+            continue
+        trs, fin, ret = [x.split() for x in line.split('|')]
+        mtr = [(Fraction(trs[3 * k]), Fraction(trs[3 * k + 1]), trs[3 * k + 2] == '1') for k in range(len(trs) // 3)]
+        m_e, m_n, m_conv = Fraction(fin[2]), int(fin[3]), fin[4]
+        m_coef, m_cc = Fraction(ret[0]), ret[1] == '1'
+        if not (m_cc and all(t[2] for t in mtr)):
+            ctx.count('intercept search: model PIRLS iteration not converged (skipped)', 1)
+            continue
+        if not o['conv']:
+            ctx.count('intercept search: pyGAM fit not converged (skipped)', 1)
+            continue
+        scale = max(1.0, float(np.max(np.abs(c['y']))))
+        # discontinuities: a coefficient within 1e-7 of a target (the ratio jumps), a ratio on a comparison boundary
+        coefs_m = [float(t[1]) for t in mtr] + [float(m_coef)] + [x[1] for x in o['fits'] if x[1] is not None]
+        near = any(np.min(np.abs(c['y'] - b)) < 1e-7 * scale for b in coefs_m)
+        for b in coefs_m:
+            rr = float((b > c['y']).mean())
+            if abs(abs(rr - c['q']) - c['tol']) < 1e-9 or abs(rr - c['q']) < 1e-12:
+                near = True
+        if near:
+            ctx.count('intercept search skipped (within 1e-7 of a jump of the ratio / a comparison boundary)', 1)
+            continue
+        impl = dict(expectiles=[x[0] for x in refits], coefs=[x[1] for x in refits], final_e=o['e'], coef=o['coef'])
+        ok = len(mtr) == len(refits) and m_n == len(refits)
+        ok = ok and all(f2q(a[0]) == b[0] for a, b in zip(refits, mtr)) and f2q(o['e']) == m_e
+        ok = ok and all(a[1] is not None and abs(a[1] - float(b[1])) <= 1e-8 * scale for a, b in zip(refits, mtr))
+        ok = ok and abs(o['coef'] - float(m_coef)) <= 1e-8 * scale
+        if not ok:
+            ctx.disagree(st, sig, impl, dict(expectiles=[str(t[0]) for t in mtr], coefs=[float(t[1]) for t in mtr], final_e=str(m_e),
+                                             coef=float(m_coef), n=m_n, conv=m_conv),
+                         'search on the intercept-only model differs from fitQuantileW with the forwarded weights')
+        else:
+            ctx.count('intercept search agrees with the model', 'with re-fits' if refits else 'no re-fit')
 
 
 def run_malformed(ctx, pygam, lits):
@@ -723,7 +1052,8 @@ def _run(ctx):
     lits = harvest_literals(pygam)
     ctx.extra['rule'] = ('fits: sweep of 9 term mixes x 9+random expectiles x weight kind x n x lam x response kind; fit_quantile: quantile x tol x '
                          'max_iter x starting expectile x prefit (no / same data / other data) x data; distinct = distinct (stream, '
-                         'configuration+index) signatures; non-trivial = expectile != 0.5 (balance), at least one re-fit (fit_quantile)')
+                         'configuration+index) signatures; non-trivial = expectile != 0.5 (balance), at least one re-fit (fit_quantile), at least one re-fit with non-uniform weights '
+                         '(fit_quantile.intercept); fit_quantile streams: every 4th case has strongly non-uniform integer weights with zeros')
     ctx.extra['literals'] = lits
     ctx.partial.append('IEEE rounding of (max_ + min_) / 2: theorems are over exact ordered fields; the float trace is compared bit for bit with the '
                        'same definitions at Float for max_iter <= 40 (strict betweenness fails in doubles once min_ and max_ are adjacent)')
@@ -735,6 +1065,7 @@ def _run(ctx):
     run_balance(ctx, pygam, lits=lits)
     run_half_linear(ctx, pygam)
     run_fit_quantile(ctx, pygam, lits)
+    run_fq_intercept(ctx, pygam)
 
 
 def replay(ctx, rp):
@@ -755,6 +1086,8 @@ def _replay(ctx, rp):
         run_half_linear(ctx, pygam, idxs=[case['idx']])
     elif st == 'fit_quantile.trace' and 'idx' in case:
         run_fit_quantile(ctx, pygam, lits, idxs=[case['idx']])
+    elif st == 'fit_quantile.intercept' and 'idx' in case:
+        run_fq_intercept(ctx, pygam, idxs=[case['idx']])
     elif st == 'intercept.fixed-point' and 'idx' in case:
         run_intercept(ctx, pygam, idxs=[case['idx']], lits=lits)
     else:
